@@ -72,6 +72,18 @@ class Driver:
             ret, res = self._call(getattr(h, a[2:]))
         elif a == "Close":
             ret, res = self._call(c.close)
+        elif a == "WithEnter":
+            h = self.handles[act["arg"] - 1]
+            ret, res = self._call(h.__enter__)
+        elif a in ("WithExit", "WithExitExc"):
+            h = self.handles[act["arg"] - 1]
+            if a == "WithExit":
+                ret, res = self._call(lambda: h.__exit__(None, None, None))
+            else:
+                boom = ValueError("boom")
+                ret, res = self._call(lambda: h.__exit__(ValueError, boom, None))
+                if ret.startswith("ok") and not res:      # __exit__ returned falsy: the block's exception propagates
+                    ret = "raised" + ret[2:]
         else:
             return "unknown action %r" % a
         if len(self.handles) != len(to["h"]):
